@@ -1,8 +1,9 @@
 (* Run_C13.v — evaluates the C13 model (Errors.v) and the property's
    specification on cases produced by harness/src/bin/c13.rs.
-   Verdict codes: 0 agree, 1 violation, 2 divergence, 9 malformed,
-   113 known-finding class K13 (for_client_error_with_status panics for a
-   client status without a canonical reason phrase). *)
+   Verdict codes: 0 agree, 1 violation, 2 divergence, 9 malformed.
+   (K13 — for_client_error_with_status panicking for a client status without
+   a standard label — was fixed in /repo 4dc9fa0: a constructor panic is a
+   violation.) *)
 From Coq Require Import String.
 From DS Require Import Base Response Errors.
 
@@ -10,7 +11,6 @@ Definition V_AGREE : N := 0.
 Definition V_VIOLATION : N := 1.
 Definition V_DIVERGE : N := 2.
 Definition V_MALFORMED : N := 9.
-Definition V_K13 : N := 113.
 
 Definition bool_eqb (a b : bool) : bool := if a then b else negb b.
 Definition strs_eqb := list_eqb str_eqb.
@@ -119,7 +119,7 @@ Definition build (txt : str) (k : ctor) : res panic http_error :=
   | KInternal int => for_internal_error rt int
   | KUnavail code int => for_unavail rt code int
   | KBadRequest code msg => Ok (for_bad_request code msg)
-  | KWithStatus code status => for_client_error_with_status rt code status
+  | KWithStatus code status => Ok (for_client_error_with_status rt code status)
   | KNotFound code int => for_not_found rt code int
   end.
 
@@ -207,18 +207,12 @@ Definition agree_ctor (me : http_error) (flags_ok : bool) (id : str) (o : cobs) 
   | _, _ => false
   end.
 
-Definition k13_class (k : ctor) : bool :=
-  match k with
-  | KWithStatus _ s => is_ok (client_from_u16 s) && negb (has_reason s)
-  | _ => false
-  end.
-
 Definition judge_ctor (k : ctor) (hdrs : list (str * str * bool)) (id txt : str) (o : cobs) : N :=
   if negb (status_representable k) then V_MALFORMED else
   match build txt k with
   | Err Panic =>
       match o with
-      | OPanicCtor => if k13_class k then V_K13 else V_VIOLATION
+      | OPanicCtor => V_VIOLATION
       | _ => if spec_ctor k id o then V_DIVERGE else V_VIOLATION
       end
   | Ok e0 =>
